@@ -53,6 +53,16 @@ func Main() {
 			}
 		}
 		fmt.Println("no")
+	case "requirements":
+		// wsverif requirements <prop> <tier>: the coverage thresholds below which a run is VACUOUS (JSON)
+		if len(os.Args) >= 4 {
+			if p := Lookup(os.Args[2]); p != nil && p.Require != nil {
+				b, _ := json.Marshal(p.Require(os.Args[3]))
+				fmt.Println(string(b))
+				return
+			}
+		}
+		fmt.Println("{}")
 	case "list":
 		for _, id := range IDs() {
 			fmt.Println(id)
